@@ -1,19 +1,32 @@
 import CuqiVerif.Model.Proto
 import CuqiVerif.Model.C20
 import CuqiVerif.Model.C10
+import CuqiVerif.Model.C10_weighted
+import CuqiVerif.Model.C10_stencil
+import CuqiVerif.Model.C10_gammadim
+import CuqiVerif.Model.C10_approx
 open CuqiVerif CuqiVerif.Proto CuqiVerif.C10
 open CuqiVerif.C20 (BC)
 
 /-
   Line protocol (one case per line):
     gauss  <reg 0|1> <cov|prec> <n> <f1> <Ax vec> <b vec> <alpha> <beta>
-    gmrf   <reg 0|1> <order> <bc> <pd 1|2> <n> <f1> <mean vec> <b vec> <alpha> <beta>
+    gmrf   <reg 0|1> <order> <bc> <pd 1|2> <n> <f1: value of the prec callable at 1, a vector (one entry: scalar)> <mean vec> <b vec> <alpha> <beta>
         -> "<shape> <rate> <tLog> <tLin> <exact 0|1>"   | "err"  (shapes that the real code cannot combine)
     validate <exp|leg|approx|approxleg> <isPosterior> <lik> <priorGamma> <priorDim> <presetNonneg> <locSumZero> <var>*
         var = key:callable:hasPar:p1|p10|p100   (each p a vector, "-" when absent)
         -> verdict name
     approx <bc> <pd> <n> <x vec> <alpha>   -> "<shape> <Dx vec>"
+    approxr <bc> <pd> <n> <x vec> <alpha> <beta>   -> "<shape> <rateLo> <rateHi>": rational enclosure of the ConjugateApprox rate
     direct <nValidate> <N>                 -> chain of draw indices, acceptance list
+    gmrfs  … same arguments and answer as `gmrf`, evaluated by stencils (`gmrfQuadFast`, equal to `gmrfQuad` by theorem
+           `gmrfQuadFast_eq`): for large grids
+    gammadim <len shape> <len rate> <geometry dim | ->   -> "dim <prior.dim> drawn <variates per step | x>" | "TypeError" | "ValueError"
+    validateg <exp|leg|approx|approxleg> <len shape> <len rate> <geometry dim | -> <isPosterior> <lik> <presetNonneg> <locSumZero> <var>*
+        -> verdict with the prior's dimension computed by the model (`withGammaPrior`) | "unbuildable"
+    gaussw <reg 0|1> <cov|prec> <n> <s|v|m> <value of the callable at 1: rational | vector | matrix> <Ax vec> <b vec> <alpha> <beta>
+        -> like `gauss`, or "err:<shape|asym|singular|notPD|zeroDiv>"  (vector / diagonal entries must be > 0, full matrices n <= 75:
+           anything else is outside the modelled range and answered "bad-op")
 -/
 
 def parseBool (s : String) : Option Bool :=
@@ -50,6 +63,24 @@ def parseDOp (s : String) : Option DOp :=
   else if s.startsWith "a" then (s.drop 1).toNat?.map DOp.assign
   else none
 
+def parsePVal (kind s : String) : Option PVal :=
+  match kind with
+  | "s" => (parseRat s).map PVal.scalar
+  | "v" => (parseVec s).map PVal.vector
+  | "m" => (parseMat s).map PVal.matrix
+  | _ => none
+
+def fmtPErr : PErr → String
+  | .shape => "err:shape" | .asym => "err:asym" | .singular => "err:singular" | .notPD => "err:notPD"
+  | .zeroDiv => "err:zeroDiv"
+
+/-- inside the modelled range: positive diagonal / vector entries (no NaN square roots), dense storage of full matrices -/
+def pvalInRange (n : Nat) : PVal → Bool
+  | .scalar _ => true
+  | .vector v => v.length = 1 || v.all (fun x => 0 < x)
+  | .matrix M =>
+    M.length = 1 || (n ≤ 75 && (!(squareOf n M) || !(isDiagonal n (matFn M)) || (List.range n).all (fun i => 0 < matFn M i i)))
+
 def fmtOutcome (o : Outcome) : String :=
   s!"{fmtRat o.gamma.shape} {fmtRat o.gamma.rate} {fmtRat o.tLog} {fmtRat o.tLin} {fmtBool o.exact}"
 
@@ -62,15 +93,59 @@ def step : List String → String
       else if w = .cov ∧ f1 = 0 then "err"
       else fmtOutcome (outcome reg (gaussQuad n (unitPrec w f1) ax b) b al be)
     | _, _, _, _, _, _, _, _ => "bad-op"
+  | ["gaussw", reg, w, n, kind, val, ax, b, al, be] =>
+    match parseBool reg, parseWiring w, n.toNat?, parsePVal kind val, parseVec ax, parseVec b, parseRat al, parseRat be with
+    | some reg, some w, some n, some pv, some ax, some b, some al, some be =>
+      if !pvalInRange n pv then "bad-op"
+      else if blen ax.length b.length ≠ some n then "err:shape"
+      else match unitPrecOf w n pv with
+        | .error e => fmtPErr e
+        | .ok U => fmtOutcome (outcome reg (gaussQuadU n U ax b) b al be)
+    | _, _, _, _, _, _, _, _ => "bad-op"
   | ["gmrf", reg, o, bc, pd, n, f1, mean, b, al, be] =>
-    match parseBool reg, o.toNat?, BC.ofString bc, pd.toNat?, n.toNat?, parseRat f1, parseVec mean, parseVec b,
+    match parseBool reg, o.toNat?, BC.ofString bc, pd.toNat?, n.toNat?, parseVec f1, parseVec mean, parseVec b,
           parseRat al, parseRat be with
     | some reg, some o, some bc, some pd, some n, some f1, some mean, some b, some al, some be =>
       if pd ≠ 1 ∧ pd ≠ 2 then "bad-op"
-      else if o > 2 ∨ ¬ (bc = .zero ∨ bc = .periodic ∨ bc = .neumann) then "err"
+      else if !gmrfAccepts o bc pd n then "err"
       else if blen mean.length b.length ≠ some (gmrfDim pd n) then "err"
-      else fmtOutcome (outcome reg (gmrfQuad o bc pd n f1 mean b) b al be)
+      else match gmrfPrecOf f1 with
+        | none => "err"
+        | some f1 => fmtOutcome (outcome reg (gmrfQuad o bc pd n f1 mean b) b al be)
     | _, _, _, _, _, _, _, _, _, _ => "bad-op"
+  | ["gmrfs", reg, o, bc, pd, n, f1, mean, b, al, be] =>
+    match parseBool reg, o.toNat?, BC.ofString bc, pd.toNat?, n.toNat?, parseVec f1, parseVec mean, parseVec b,
+          parseRat al, parseRat be with
+    | some reg, some o, some bc, some pd, some n, some f1, some mean, some b, some al, some be =>
+      if pd ≠ 1 ∧ pd ≠ 2 then "bad-op"
+      else if !gmrfAccepts o bc pd n then "err"
+      else if blen mean.length b.length ≠ some (gmrfDim pd n) then "err"
+      else match gmrfPrecOf f1 with
+        | none => "err"
+        | some f1 => fmtOutcome (outcome reg (gmrfQuadFast o bc pd n f1 mean b) b al be)
+    | _, _, _, _, _, _, _, _, _, _ => "bad-op"
+  | ["gammadim", a, r, g] =>
+    match a.toNat?, r.toNat?, (if g = "-" then some none else g.toNat?.map some) with
+    | some a, some r, some g =>
+      match gammaPriorDim a r g with
+      | .dim k => s!"dim {k} drawn {match drawnDim a r with | some d => toString d | none => "x"}"
+      | .typeError => "TypeError"
+      | .valueError => "ValueError"
+    | _, _, _ => "bad-op"
+  | "validateg" :: iface :: a :: r :: g :: isP :: lik :: preset :: loc :: vars =>
+    match a.toNat?, r.toNat?, (if g = "-" then some none else g.toNat?.map some), parseBool isP, parseLik lik,
+          parseBool preset, parseBool loc, vars.mapM parseVar with
+    | some a, some r, some g, some isP, some lik, some preset, some loc, some vars =>
+      match withGammaPrior ⟨isP, lik, true, 0, preset, loc, vars⟩ a r g with
+      | none => "unbuildable"
+      | some t =>
+        match iface with
+        | "exp" => fmtVerdict (validateExp t)
+        | "leg" => fmtVerdict (validateLegacy t)
+        | "approx" => fmtVerdict (validateApprox t)
+        | "approxleg" => fmtVerdict (validateApproxLegacy t)
+        | _ => "bad-op"
+    | _, _, _, _, _, _, _, _ => "bad-op"
   | "validate" :: iface :: isP :: lik :: pg :: pdim :: preset :: loc :: vars =>
     match parseBool isP, parseLik lik, parseBool pg, pdim.toNat?, parseBool preset, parseBool loc, vars.mapM parseVar with
     | some isP, some lik, some pg, some pdim, some preset, some loc, some vars =>
@@ -89,6 +164,15 @@ def step : List String → String
       else if x.length ≠ gmrfDim pd n then "err"
       else s!"{fmtRat (approxShape x al)} {fmtVec (approxDx bc pd n x)}"
     | _, _, _, _, _ => "bad-op"
+  | ["approxr", bc, pd, n, x, al, be] =>
+    match BC.ofString bc, pd.toNat?, n.toNat?, parseVec x, parseRat al, parseRat be with
+    | some bc, some pd, some n, some x, some al, some be =>
+      if pd ≠ 1 ∧ pd ≠ 2 then "bad-op"
+      else if x.length ≠ gmrfDim pd n then "err"
+      else
+        let dx := approxDx bc pd n x
+        s!"{fmtRat (approxShape x al)} {fmtRat (approxRateLo dx be approxBits)} {fmtRat (approxRateHi dx be approxBits)}"
+    | _, _, _, _, _, _ => "bad-op"
   | ["direct", nv, n] =>
     match nv.toNat?, n.toNat? with
     | some nv, some n =>
